@@ -51,6 +51,18 @@ def cargo_check(crate, feats, slot):
         cmd += ["--features", " ".join(feats)]
     p = subprocess.run(cmd, cwd=REPO, env=env, stdout=subprocess.PIPE, stderr=subprocess.STDOUT, text=True, timeout=3600)
     errs = [l for l in p.stdout.split("\n") if l.startswith("error")]
+    # every feature set leaves its own ~1 GB of metadata for the workspace crates behind: drop those (third-party artefacts stay cached)
+    import glob, shutil
+    td = env["CARGO_TARGET_DIR"]
+    for pat in ("debug/deps/libwow_*", "debug/deps/wow_*", "debug/incremental/wow_*", "debug/.fingerprint/wow_*"):
+        for f in glob.glob(os.path.join(td, pat)):
+            if os.path.isdir(f):
+                shutil.rmtree(f, ignore_errors=True)
+            else:
+                try:
+                    os.remove(f)
+                except OSError:
+                    pass
     return p.returncode, errs[:6], p.stdout[-1500:]
 
 
